@@ -75,7 +75,7 @@ def from_project(proj):
 PROPS['C01'] = dict(
     theorems=['C01_generic_purl', 'C01_typed_purl', 'C01_same_string_G', 'C01_same_string_P'],
     accepts=lambda c: c[0] in 'PS' and kind_of(c) in 'gst',
-    gen=lambda tier, rng: chain(parse_stream(tier, rng, ('g', 't', 's'), TOK_Q, TOK_T), gens.gen_utf8(Q(tier, 2, 3), ('g', 't')), (c for c in gens.gen_lengths() if c[0] == 'P')),
+    gen=lambda tier, rng: chain(parse_stream(tier, rng, ('g', 't', 's'), TOK_Q, TOK_T), gens.gen_utf8(Q(tier, 2, 3), ('g', 't')), (c for c in gens.gen_lengths() if c[0] == 'P'), (c for c in c03_scalars(tier) if c[0] == 'P')),
     compare=impl_accepts(lambda c, p: (vals(p[0]), vals(p[1]), canon(p[0]) == canon(p[1]))),
     rule='conformance corpus and mutations of it, exhaustive bounded token language (6 families), random legal spellings of random component tuples; '
          'parse + canonical string + re-parse compared between extracted model and crate for every string the crate accepts',
@@ -160,10 +160,17 @@ PROPS['C02'] = dict(
 # ------------------------------------------------------------------ C03
 def c03_sel(c, p):
     return p[0]
+def c03_scalars(tier):
+    cps = list(range(0x80, 0x600)) + [0x4E2D, 0x6587, 0x65E5, 0x672C, 0x1E9E, 0x2102, 0x212A, 0xFB00, 0xFF21, 0x10400, 0x1F600, 0x10FFFF] + (list(range(0x600, 0x3000, 7)) if tier != 'quick' else [])
+    for cp in cps:
+        if 0xD800 <= cp <= 0xDFFF: continue
+        ch = chr(cp); v = 'x' + ch + 'y'
+        yield f'B g {gens.hx("t")} {gens.hx(v)} S:{gens.hx(v)},V:{gens.hx(v)},U:{gens.hx(v)},Q:{gens.hx("k")}:{gens.hx(v)}'
+        yield f'P g {gens.hx("pkg:t/" + v + "/" + v + "@" + v + "?k=" + v + "#" + v)}'
 PROPS['C03'] = dict(
     accepts=lambda c: c[0] in 'PSB',
     gen=lambda tier, rng: chain(gens.gen_byte(pairs=True, kinds=('g',)), gens.gen_byte(pairs=False, kinds=('t', 's', 'b')), gens.gen_types(),
-                                gens.gen_build(rng, Q(tier, 20000, 300000), 1, ('g', 't', 's', 'b', 'o')), gens.gen_spell(rng, Q(tier, 20000, 200000), ('g', 't', 's'))),
+                                gens.gen_build(rng, Q(tier, 20000, 300000), 1, ('g', 't', 's', 'b', 'o')), gens.gen_spell(rng, Q(tier, 20000, 200000), ('g', 't', 's')), c03_scalars(tier)),
     compare=on_same_value(lambda c, p: canon(p[0])), exhaustive=False,
     rule='exhaustive: every ASCII byte and every ASCII pair (plus 2-, 3-, 4-byte scalars) in each of the 5 component positions through the builder; '
          'random builder sequences and parsed spellings; the canonical string compared wherever model and crate hold the same component values, and an independent renderer of the documented shape in the oracle on every value',
@@ -174,7 +181,7 @@ def c04_sel(c, p):
 PROPS['C04'] = dict(
     accepts=lambda c: c[0] in 'PSBH',
     gen=lambda tier, rng: chain(parse_stream(tier, rng, ('g', 't', 's'), {'head': 3, 'path': 3, 'qual': 3, 'sub': 3}, {'head': 4, 'path': 4, 'qual': 4, 'sub': 4}, (15000, 200000), (2000, 30000)),
-                                gens.gen_build(rng, Q(tier, 30000, 400000), 1, ('g', 't', 's', 'b', 'o')), gens.gen_types(), gens.gen_shape(rng, Q(tier, 3000, 50000))),
+                                gens.gen_build(rng, Q(tier, 30000, 400000), 1, ('g', 't', 's', 'b', 'o')), gens.gen_types(), gens.gen_shape(rng, Q(tier, 3000, 50000)), gens.gen_slot(('g', 't'))),
     compare=impl_accepts(c04_sel),
     rule='parser streams, builder call sequences for String / Cow borrowed / Cow owned / SmallString / PackageType, and the family of user-written shapes '
          '(3 conversions x 3 type renderings x 29 hook programs); the value handed out compared; invariant evaluated by the oracle on every value',
@@ -382,6 +389,11 @@ def c12_builders(rng, n):
             for t in typed:
                 seqs.append(f'Q:{gens.hx(rng.choice(keys))}:{gens.hx(r)},C:{t}')
                 seqs.append(f'C:{t},Q:{gens.hx(rng.choice(keys))}:{gens.hx(r)}')
+        for r in raws[:6]:
+            for ek in ['arch', 'a', 'zz', 'channel']:
+                seqs.append(f'Q:{gens.hx(ek)}:-,Q:{gens.hx("checksum")}:{gens.hx(r)}')
+                seqs.append(f'Q:{gens.hx(ek)}:-,Q:{gens.hx("checksum")}:{gens.hx(r)},R:{gens.hx("https://e.x")}')
+                seqs.append(f'D:{gens.hx(ek)}:-,D:{gens.hx("b")}:-,Q:{gens.hx("checksum")}:{gens.hx(r)}')
         for t1 in typed:
             for t2 in typed:
                 seqs.append(f'C:{t1},C:{t2}')
